@@ -52,13 +52,16 @@ func c13Errors(c *core.Ctx) bool {
 	mkIssue := func() error {
 		return &z.ZogIssue{Code: "app_code", Path: "elsewhere", Message: "the application's message"}
 	}
-	kind := c.R.Intn(3)
+	kind := c.R.Intn(4)
 	ret := func(any) error {
 		switch kind {
 		case 0:
 			return plain
 		case 1:
 			return mkIssue()
+		case 3:
+			// an issue built by hand that says nothing about where it happened
+			return &z.ZogIssue{Code: "app_code", Message: "the application's message"}
 		}
 		return fmt.Errorf("wrapped: %w", plain)
 	}
@@ -99,7 +102,7 @@ func c13Errors(c *core.Ctx) bool {
 	qv, qp := quad(oV.Issues), quad(oP.Issues)
 	a, b := obs.MultisetDiff(qv, qp)
 	if oV.Panicked || oP.Panicked || len(a) > 0 || len(b) > 0 || len(qv) == 0 {
-		c.Violation("modes-disagree-on-issues|non-test-failure", map[string]any{"schema": root.Source(), "value": obs.Render(v), "what_fails": []string{"plain error", "own ZogIssue", "wrapped plain error"}[kind],
+		c.Violation("modes-disagree-on-issues|non-test-failure", map[string]any{"schema": root.Source(), "value": obs.Render(v), "what_fails": []string{"plain error", "own ZogIssue", "wrapped plain error", "own ZogIssue without a path"}[kind],
 			"validate_issues": issuesText(oV), "parse_issues": issuesText(oP), "panic": fmt.Sprint(oV.Panic, oP.Panic)})
 		return false
 	}
@@ -111,6 +114,13 @@ func c13Errors(c *core.Ctx) bool {
 func (c13) RunCase(c *core.Ctx) {
 	if c.Case%25 == 3 && !c13Errors(c) {
 		return
+	}
+	if c.Case%100 == 8 {
+		c.Eval(4)
+		if problem := dModesAgreeOnNames(); problem != "" {
+			c.Violation("modes-disagree-on-issues|field-names-and-empty-keys", map[string]any{"schema": "{Ñame: String().Min(5), Émail: String().Email(), Дата: Int().GT(10), text: String().Min(5)} for struct{ Ñame, Émail string; Дата int; Text string `zog:\"\"` }", "observed": problem})
+			return
+		}
 	}
 	if c.Case%100 == 7 {
 		c.Eval(6)
